@@ -8,6 +8,7 @@ CONSTANTS
  FixVaArea = FALSE
  FixVaStride = FALSE
  FixVaArg = FALSE
+ FixVaArgLd = FALSE
  FixRetRax = FALSE
  Waived = {}
  MaxLen = 16
